@@ -103,15 +103,28 @@ func NewRequestServer(rwc io.ReadWriteCloser, h Handlers, options ...RequestServ
 
 // New Open packet/Request
 func (rs *RequestServer) nextRequest(r *Request) string {
+	rs.reserveHandle(r)
+	rs.publishRequest(r)
+
+	return r.handle
+}
+
+// reserveHandle gives the request its handle without making it reachable through the handle yet.
+func (rs *RequestServer) reserveHandle(r *Request) {
 	rs.mu.Lock()
 	defer rs.mu.Unlock()
 
 	rs.handleCount++
 
 	r.handle = strconv.Itoa(rs.handleCount)
-	rs.openRequests[r.handle] = r
+}
 
-	return r.handle
+// publishRequest makes a request, whose handle was reserved, reachable through that handle.
+func (rs *RequestServer) publishRequest(r *Request) {
+	rs.mu.Lock()
+	defer rs.mu.Unlock()
+
+	rs.openRequests[r.handle] = r
 }
 
 // Returns Request from openRequests, bool is false if it is missing.
@@ -258,19 +271,26 @@ func (rs *RequestServer) packetWorker(ctx context.Context, pktChan chan orderedR
 			}
 		case *sshFxpOpendirPacket:
 			request := requestFromPacket(ctx, pkt, rs.startDirectory)
-			handle := rs.nextRequest(request)
+			// The request only becomes reachable through its handle once it is completely set up:
+			// handle numbers are predictable, and a READ/WRITE/READDIR naming the handle early
+			// would otherwise run on another worker while Method and the handler objects are being written.
+			rs.reserveHandle(request)
 			rpkt = request.opendir(rs.Handlers, pkt)
-			if _, ok := rpkt.(*sshFxpHandlePacket); !ok {
-				// if we return an error we have to remove the handle from the active ones
-				rs.closeRequest(handle)
+			if _, ok := rpkt.(*sshFxpHandlePacket); ok {
+				rs.publishRequest(request)
+			} else {
+				// if we return an error the handle never becomes active
+				request.close()
 			}
 		case *sshFxpOpenPacket:
 			request := requestFromPacket(ctx, pkt, rs.startDirectory)
-			handle := rs.nextRequest(request)
+			rs.reserveHandle(request)
 			rpkt = request.open(rs.Handlers, pkt)
-			if _, ok := rpkt.(*sshFxpHandlePacket); !ok {
-				// if we return an error we have to remove the handle from the active ones
-				rs.closeRequest(handle)
+			if _, ok := rpkt.(*sshFxpHandlePacket); ok {
+				rs.publishRequest(request)
+			} else {
+				// if we return an error the handle never becomes active
+				request.close()
 			}
 		case *sshFxpFstatPacket:
 			handle := pkt.getHandle()
